@@ -813,6 +813,11 @@ def shards(tier, seed):
         of = _nchunks(n, 0.95 * len(TABLE_REPS), target_s=8.0 if tier == "quick" else 40.0)
         for c in range(of):
             out.append({"part": "translate", "n": n, "chunk": c, "of": of})
+    # long inputs: every codon in order, repeated, at the lengths where index arrays change their integer type
+    # (a defect found by an independent seeded-change author lay just outside the exhaustive length bound)
+    for ncodons in ([255, 256, 257] if tier == "quick" else [255, 256, 257, 65535, 65536, 65537]):
+        for lead in (0, 1, 2):
+            out.append({"part": "long", "ncodons": ncodons, "lead": lead})
     # sequence level
     seq_codes = [int(c) for c in b["seq_len"]]
     for cid in seq_codes:
@@ -863,6 +868,11 @@ def run_shard(spec, acc):
                 chk_translate(acc, s, cid)
         acc.sample({"length": spec["n"], "codes": TABLE_REPS,
                     "entry_points": "old translate; new translate (str, index array) x rc; new sixframes"}, f"translate{spec['n']}")
+    elif part == "long":
+        s = "ACG"[: spec["lead"]] + "".join(codon_at(i % 64) for i in range(spec["ncodons"]))
+        for cid in TABLE_REPS:
+            chk_translate(acc, s, cid)
+        acc.sample({"long": True, "codons": spec["ncodons"], "leading_bases": spec["lead"], "codes": TABLE_REPS}, "long")
     elif part == "seq":
         for s in _strings(spec["n"], spec["chunk"], spec["of"]):
             for cid in spec["codes"]:
